@@ -26,7 +26,9 @@ namespace internal {
 template <typename T>
 constexpr auto trunc_int(T const x) noexcept -> T
 {
-    return (T(static_cast<llint_t>(x)));
+    return ( // a negative fraction truncates to negative zero
+        (x < T(0) && x > T(-1)) ? -T(0) : T(static_cast<llint_t>(x))
+    );
 }
 
 template <typename T>
@@ -38,9 +40,12 @@ constexpr auto trunc_check(T const x) noexcept -> T
             !is_finite(x) ? x
                           :
                           // signed-zero cases
-            etl::numeric_limits<T>::epsilon() > abs(x) ? x
-                                                       :
-                                                       // else
+            x == T(0) ? x
+                      :
+                      // no fractional part left; also keeps the conversion to llint_t in range
+            abs(x) >= T(1) / etl::numeric_limits<T>::epsilon() ? x
+                                                               :
+                                                               // else
             trunc_int(x)
     );
 }
